@@ -150,8 +150,8 @@ PROPS["C03"] = dict(
     jobs=[dict(EO_JOB, eo_queries=["twin", "D", "R", "T", "U", "W", "C"]),
           dict(harness=BROKER_H, entries=r"^H_C12_reentry_vs_writer$", params=dict(quick={}, thorough={}), shards=dict(quick=4, thorough=8), maxswitches=dict(quick=3, thorough=5), instrument_locks=True),
           # a Send after any Broker call (successful or early-returning) returns: no call leaves a lock behind
-          dict(harness=BROKER_H, entries=r"^H_C12_every_call_releases$", params=dict(quick={}, thorough={}), shards=dict(quick=4, thorough=4))],
-    must_reach=["C12.every-call.end"],
+          dict(harness=BROKER_H, entries=r"^H_C12_every_call_releases$|^H_C12_reentry$", params=dict(quick={}, thorough={}), shards=dict(quick=4, thorough=4))],
+    must_reach=["C12.every-call.end", "C12.reentry.end"],
     bounds=dict(quick="all 15 ordered shapes with P<=3 pipelines x N_i in {2,3} nodes; all schedules, cancel instants (never/anywhere), outcomes, node delays", thorough="P<=3 x N_i in {2,3,5} (40 ordered shapes) + P=4 x N_i in {2,3} (16) + (2,2,2,5), (5,3,2,2), 4x4; larger 4- and 5-pipeline shapes are outside the claim (solver budget)"),
     assumptions=["received Status values are havocked in the automata (control never depends on them; contents are checked on the sequential harness)", "hand-written Go channel/select/WaitGroup/context semantics of the composer (eo_compose.py) is trusted; latency in seconds is not expressible (enabledness instead)"],
     trusted_base=COMMON_TRUST + ["eo_compose.py: event-order semantics of unbuffered channels, select, close, WaitGroup, context cancellation"],
@@ -225,7 +225,7 @@ PROPS["C09"] = dict(
     assumptions=["payload shapes outside the catalogue (protobuf structpb, deeper nesting, slices of Taggables) are not covered", "tags are the concrete tags of the catalogue types (no symbolic tag strings)", "reflect / copystructure / pointerstructure semantics are our model of those libraries"],
     trusted_base=COMMON_TRUST + ["engine/symex/reflectmodel.go", "engine/symex/cryptomodel.go"],
 )
-PROPS["C10"] = dict(PROPS["C09"], explanation=REFLECT_NOTE + "The caller's event and payload are compared leaf by leaf with a snapshot taken before Process; the forwarded event must be a distinct object graph of the same dynamic type and shape (lengths, keys, non-string values); all-none overrides and nil/zero payloads forward the same event.")
+PROPS["C10"] = dict(PROPS["C09"], jobs=PROPS["C09"]["jobs"] + [dict(dir=ENC_DIR, harness=ENC_H, entries=r"^H_C16_rotate$", params=dict(quick={}, thorough={}), shards=dict(quick=4, thorough=8))], must_reach=PROPS["C09"]["must_reach"] + ["C16.rotate.end"], explanation=REFLECT_NOTE + "The caller's event and payload are compared leaf by leaf with a snapshot taken before Process; the forwarded event must be a distinct object graph of the same dynamic type and shape (lengths, keys, non-string values); all-none overrides and nil/zero payloads forward the same event.")
 
 _TECH = {
  "C01": "symbolic execution of go/ssa (SMT, z3) + event-order SMT encoding of all schedules over thread automata extracted from the SSA",
